@@ -11,10 +11,12 @@ mod case {
 }
 
 mod ast;
+mod c11;
 mod c16;
 mod c18;
 mod dump;
 mod front;
+mod ir;
 
 pub fn guarded<F: FnOnce() -> Value>(f: F) -> Value {
     match catch_unwind(AssertUnwindSafe(f)) {
@@ -37,6 +39,7 @@ fn dispatch(v: &Value) -> Value {
     match cmd {
         "rename_direct" | "rename_e2e" | "serde_case" | "unicode" => c16::handle(cmd, v),
         "parse" => front::handle(cmd, v),
+        "toposort_impl" | "sort_by_indices" | "topsort" => c11::handle(cmd, v),
         "c18" | "c18_from" | "c18_json" | "c18_cmp" => c18::handle(cmd, v),
         "ast" | "ast_type" => ast::handle(cmd, v),
         _ => json!({ "bad": format!("unknown cmd {cmd}") }),
